@@ -378,11 +378,11 @@ class CallMixin:
                                  f"{'effect ' + ext.effect if ext.effect else 'no file-system effect'}")
         if ctx.quant_depth or ctx.spec_depth:
             raise Unsupported(f"external callee {label} under a quantifier/spec")
-        if ext.effect:
-            self.effect(ext.effect, args[0] if args else NONE)
         for pos, etype in enumerate(ext.raises):
             if ctx.decide(2) == 1:
                 raise PyExc(etype, f"external {label}", line)
+        if ext.effect:
+            self.effect(ext.effect, args[0] if args else NONE)
         if ext.returns is None:
             return NONE
         ctx.havoc_used = True
